@@ -17,7 +17,7 @@ package ip
 // C17: the FIRST interface (in system order) that has an address network containing the target's base address is
 // chosen, together with that network's own address; a lookup error aborts; none attached -> nil
 //@ func GetLocalSubnetInterface
-//@   props C17 C05
+//@   props C17 C05 C02 C11
 //@   observe net.Interfaces, GetLocalSubnetInterfaceIP
 //@   entry row nolist: [call net.Interfaces() as (ifs, e)] when e != nil && ret2 == e -> exit
 //@   entry row list:   [call net.Interfaces() as (ifs, e)] when e == nil -> loop 0
@@ -29,7 +29,7 @@ package ip
 
 // the address returned for an interface is the address of the FIRST of its networks that contains the target base
 //@ func GetLocalSubnetInterfaceIP
-//@   props C17 C05
+//@   props C17 C05 C02 C11
 //@   observe Mask, Addrs, Contains
 //@   entry row noaddrs: [call Mask(dstSubnet.IP, dstSubnet.Mask) as (base) ; call Addrs(iface) as (as, e)] when e != nil && ret0 == nil && ret1 == e -> exit
 //@   entry row addrs:   [call Mask(dstSubnet.IP, dstSubnet.Mask) as (base) ; call Addrs(iface) as (as, e)] when e == nil -> loop 0
@@ -40,7 +40,7 @@ package ip
 
 // first address of an interface
 //@ func GetInterfaceIP
-//@   props C17 C05
+//@   props C17 C05 C02 C11
 //@   observe Addrs, fmt.Errorf
 //@   entry row none:  [call Addrs(iface) as (as, e)] when (e != nil || len(as) == 0) && ret0 == nil && ret1 == e -> exit
 //@   entry row first: [call Addrs(iface) as (as, e)] when e == nil && len(as) > 0 && isptr(as[0], net.IPNet) && ret0 == asptr(as[0], net.IPNet).IP && ret1 == nil -> exit
@@ -50,7 +50,7 @@ package ip
 // than the best seen so far (so the first of equal metrics wins); taking it replaces interface and address by that
 // route's link and its first address; other routes change nothing
 //@ func GetDefaultInterface
-//@   props C17 C05
+//@   props C17 C05 C02 C11
 //@   observe netlink.RouteList, net.InterfaceByIndex, GetInterfaceIP
 //@   entry row nolist: [call netlink.RouteList(_, _) as (rs, e)] when e != nil && ret2 == e -> exit
 //@   entry row list:   [call netlink.RouteList(_, _) as (rs, e)] when e == nil -> loop 0
@@ -65,7 +65,7 @@ package ip
 // default gateway of an interface (C11): among the default routes (no Dst, no Src) through THIS link, the gateway of
 // the first one with the strictly lowest metric; other routes change nothing
 //@ func GetDefaultGatewayIP
-//@   props C11 C17 C05
+//@   props C11 C17 C05 C02
 //@   observe netlink.RouteList
 //@   entry row nolist: [call netlink.RouteList(_, _) as (rs, e)] when e != nil && ret1 == e -> exit
 //@   entry row list:   [call netlink.RouteList(_, _) as (rs, e)] when e == nil -> loop 0
